@@ -28,7 +28,9 @@ def _judge(run):
     return labels, bool(nt)
 
 
-P = ScenarioProperty(PROP, {"max_wrappers": 3}, lambda sc: [C03Checker(sc)], _judge, quick=1600, thorough=30000, machine={})
+from ..scenario import Objective  # noqa: E402
+
+P = ScenarioProperty(PROP, {"max_wrappers": 3, "families": Objective.FAMILIES + ["infwall"]}, lambda sc: [C03Checker(sc)], _judge, quick=1600, thorough=30000, machine={})
 
 
 def run_shard(tier, seed, shard, nshards, tally, scale=1.0):
